@@ -193,6 +193,12 @@ func presentations() []pres {
 		{"id-scheme-relative", func(from string, a bool) any {
 			return mkDoc(from, a, func(m M) { m["id"] = strings.Replace(victim(a), "https:", "", 1) })
 		}},
+		{"id-with-fragment", func(from string, a bool) any {
+			return mkDoc(from, a, func(m M) { m["id"] = victim(a) + "#main-key" })
+		}},
+		{"id-with-empty-fragment-and-query", func(from string, a bool) any {
+			return mkDoc(from, a, func(m M) { m["id"] = victim(a) + "?#" })
+		}},
 		{"id-missing", func(from string, a bool) any { return mkDoc(from, a, func(m M) { delete(m, "id") }) }},
 		{"id-wrong-type", func(from string, a bool) any { return mkDoc(from, a, func(m M) { m["id"] = 7.0 }) }},
 		{"genuine-url", func(from string, a bool) any { return victim(a) }},
@@ -515,7 +521,7 @@ func refDecoded(ref any) any {
 
 func main() {
 	r := ev.New("C02", "model_checking",
-		"attack worlds: attacker host in {evil, h2, the victim's name on another port, the victim's name with a trailing digit} x 17 reference slots (inReplyTo, attributedTo, audience, reply item, activity object/actor, Create object, an inline Create wrapper with a claimed id, outbox item, collection item, first page; and five where a genuine document of the victim's host points at a collection or page served by the attacker without an id) x 22 presentations of a forged copy of h1's note or actor "+
+		"attack worlds: attacker host in {evil, h2, the victim's name on another port, the victim's name with a trailing digit} x 17 reference slots (inReplyTo, attributedTo, audience, reply item, activity object/actor, Create object, an inline Create wrapper with a claimed id, outbox item, collection item, first page; and five where a genuine document of the victim's host points at a collection or page served by the attacker without an id) x 24 presentations of a forged copy of h1's note or actor "+
 			"(embedded copy, stubs, URL to a forging path, redirects to the victim / a third-host copy / relative, victim-host open redirect, open redirect used as id, id with :443 / upper case / userinfo / trailing dot / missing / wrong type, genuine URL) "+
 			"x warming history {cold, victim cached, reference cached, carrier fetched before; thorough: also every ordered pair of these} x cache size {1,2,128}; each through pub.New (by URL twice, embedded with attacker source, embedded without source) with every reachable item inspected, and through client.FetchUnknown three times; "+
 			"every object names its serving host in its visible text and in a stamp; distinct_nontrivial = attack cases (not the genuine-URL control)")
